@@ -87,6 +87,55 @@ def handle (op : String) (a : Json) : Except String Json := do
     match g.bounds with
     | some b => return valJ (boundsJ b)
     | none => return Json.mkObj [("raise", Json.str "empty")]
+  | "time_band" =>
+    -- follow-up 2: a time-branch pair with one GEOS-buffered side `g` and a time-only side `h`: the band of
+    -- admissible affinities from the coordinates of `g` (`bufferedTimeBand`; theorems C06_buffered_time_band,
+    -- C06_pipeline_affinity_band), the single value for the ideal buffer, and the verdict on observed values
+    let g ← getGeom (← fld a "g")
+    let h ← getGeom (← fld a "h")
+    let tb ← fldRat a "tb"
+    let fb ← fldRat a "fb"
+    let rho ← fldRat a "rho"
+    let kappa ← fldRat a "kappa"
+    let tol ← fldRat a "tol"
+    let atol ← fldRat a "atol"
+    let vals ← getRatList (← fld a "vals")
+    match bufferedTimeBand rho kappa tol g h tb fb, bufferedTimeBand 1 1 0 g h tb fb with
+    | some band, some ideal =>
+      return Json.mkObj [("band", ratsJ [band.1, band.2]), ("ideal", ratJ ideal.1),
+        ("ok", boolJ (vals.all (inBand band atol)))]
+    | _, _ => return Json.mkObj [("raise", Json.str "not-a-buffered-time-pair")]
+  | "buffer_contract" =>
+    -- the buffered shape of a GEOS-buffered geometry against the pipeline contract, from the coordinates:
+    -- time extent, frequency extent, area
+    let g ← getGeom (← fld a "g")
+    let tb ← fldRat a "tb"
+    let fb ← fldRat a "fb"
+    let rho ← fldRat a "rho"
+    let rhoA ← fldRat a "rho_area"     -- radius of the disc inscribed in a polygonal circle (also for a point)
+    let kt ← fldRat a "kappa_t"
+    let kf ← fldRat a "kappa_f"
+    let tol ← fldRat a "tol"
+    let st ← fldRat a "st"
+    let en ← fldRat a "en"
+    let lo ← fldRat a "lo"
+    let hi ← fldRat a "hi"
+    let area ← fldRat a "area"
+    match g.bounds with
+    | some b =>
+      if geosBuffered g then
+        return Json.mkObj [("time", boolJ (extentWithin rho kt tol b.st b.en tb st en)),
+          ("freq", boolJ (freqWithin rho kf tol b.lo b.hi fb lo hi)),
+          ("area", boolJ (areaWithin rhoA kt kf tol g b tb fb area)),
+          ("raw", boundsJ b)]
+      else return Json.mkObj [("raise", Json.str "not-geos-buffered")]
+    | none => return Json.mkObj [("raise", Json.str "empty")]
+  | "area" =>
+    -- shoelace area of an unbuffered (multi)polygon / box (contract `AreaExact`)
+    let g ← getGeom (← fld a "g")
+    match closedArea g with
+    | some x => return valJ (ratJ x)
+    | none => return Json.mkObj [("raise", Json.str "not-polygonal")]
   | "iou" =>
     return valJ (ratJ (iouC (← fldRat a "a") (← fldRat a "b") (← fldRat a "i")))
   | "time_iou" =>
